@@ -26,10 +26,22 @@ type closePendingObs struct {
 	CloserOK    bool   `json:"closer_returned"`
 	Err         string `json:"err,omitempty"`
 	Oracle      string `json:"oracle_fail,omitempty"`
+	// the hook trace of the client connection, replayed through Conn.step like the traces of family conn
+	Scenario string                 `json:"scenario"`
+	Params   map[string]interface{} `json:"params"`
+	Events   []tev                  `json:"events"`
+	Calls    []*callRec             `json:"calls"`
 }
 
-func closePendingCase(method, answer string) closePendingObs {
-	o := closePendingObs{Answer: answer, Method: method}
+func closePendingCase(method, answer string) (o closePendingObs) {
+	o = closePendingObs{Answer: answer, Method: method, Scenario: "close-pending", Params: map[string]interface{}{"method": method, "answer": answer}, Calls: []*callRec{}}
+	tr := newTracer()
+	tr.install()
+	defer func() {
+		time.Sleep(5 * time.Millisecond)
+		o.Events = tr.snapshot()
+		tr.uninstall()
+	}()
 	up := websocket.Upgrader{}
 	reqs := make(chan map[string]interface{}, 16)
 	var connMu sync.Mutex
